@@ -822,13 +822,12 @@ func cmdSelftest(args []string) int {
 		}
 	}
 	self, _ := os.Executable()
-	type job struct {
-		procs int
-		out   string
-	}
+	// the profile whose schedules are digested (default C01; VERIF_SELFTEST_PROP=C07|C18|C19|... for the
+	// profiles with floods, exports and crashes)
+	sprop := envStr("VERIF_SELFTEST_PROP", "C01")
 	var outs []string
 	for _, p := range []int{1, 4, 16, 1, 4, 16} {
-		b, err := exec.Command(self, "digest", "-prop", "C01", "-seed", "7", "-n", fmt.Sprint(n), "-procs", fmt.Sprint(p)).CombinedOutput()
+		b, err := exec.Command(self, "digest", "-prop", sprop, "-seed", "7", "-n", fmt.Sprint(n), "-procs", fmt.Sprint(p)).CombinedOutput()
 		if err != nil {
 			fmt.Println("selftest: digest process failed:", err, string(b))
 			return 2
@@ -848,7 +847,7 @@ func cmdSelftest(args []string) int {
 			return 1
 		}
 	}
-	fmt.Printf("selftest: %d seeds x 6 processes (GOMAXPROCS 1/4/16 twice): identical step digests\n", n)
+	fmt.Printf("selftest (%s profile): %d seeds x 6 processes (GOMAXPROCS 1/4/16 twice): identical step digests\n", sprop, n)
 	return 0
 }
 
